@@ -4,8 +4,8 @@
  * bound to 127.0.0.1:0 with real loopback clients; accept4 is wrapped at link
  * time (-Wl,--wrap=accept4) and answers from the script carried by the "loop"
  * op before passing through to the kernel.  After every op the driver prints
- * what can be observed: return value, fds owned by the listener (from
- * /proc/self/fd), whether the listening socket is still open, what every
+ * what can be observed: return value, fds owned by the listener (by probing
+ * the process's fd table), whether the listening socket is still open, what every
  * client sees, and for a loop step the accept-callback and error-callback logs.
  * No oracle logic here.
  */
@@ -17,7 +17,6 @@
 #include <sys/stat.h>
 #include <netinet/in.h>
 #include <arpa/inet.h>
-#include <dirent.h>
 #include <poll.h>
 #include <unistd.h>
 #include <fcntl.h>
@@ -63,14 +62,14 @@ int __wrap_accept4(int fd, struct sockaddr *sa, socklen_t *len, int flags)
 	return -1;
 }
 
+/* number of open descriptors of the process (the fd table is probed directly: cheaper than
+ * reading /proc/self/fd and allocation-free; the driver never has more than a few dozen fds) */
+#define FD_PROBE_MAX 48
 static int count_fds(void)
 {
-	DIR *d = opendir("/proc/self/fd");
-	struct dirent *e;
-	int n = 0;
-	if (!d) return -1;
-	while ((e = readdir(d))) if (e->d_name[0] != '.') n++;
-	closedir(d);
+	int fd, n = 0;
+	for (fd = 0; fd < FD_PROBE_MAX; fd++)
+		if (fcntl(fd, F_GETFD) != -1 || errno != EBADF) n++;
 	return n;
 }
 
